@@ -121,6 +121,36 @@ def probe(res, prop, mm, slots, rng, desc, others=(), domain=False, where="const
                         setattr(mm, s["alias"], v)
                     except Exception:
                         pass
+    # a label is changed afterwards (the number of exposed controllers stays): the NEW word is the alias from now on
+    if order:
+        from rv.errors import ControllerValueError as _CVE
+        i = order[0]
+        s = slots[i]
+        first = next(j for j, t in enumerate(slots) if t["alias"] == s["alias"])
+        s = slots[first]
+        new_word = "Renamed" + str(first)
+        mm.user_defined[first].label = new_word
+        v = (s["lo"] + s["hi"]) // 2 + 1
+        case = dict(desc, where=where, relabelled_slot=first + 1, new_label=new_word)
+        res.count("alias_relabel_probes")
+        try:
+            setattr(mm, "u_" + new_word.lower(), v)
+            got = getattr(mm, f"user_defined_{first + 1}")
+        except Exception as e:
+            res.violation(f"{prop}:alias-after-relabel:{type(e).__name__}", f"{where}: slot {first + 1} relabelled {new_word!r}; u_{new_word.lower()} = {v} raised {e!r}", case)
+        else:
+            if got != v:
+                res.violation(f"{prop}:alias-wrong-controller", f"{where}: slot {first + 1} relabelled {new_word!r}; u_{new_word.lower()} = {v} left user_defined_{first + 1} at {got}", case)
+            elif domain:
+                try:
+                    setattr(mm, "u_" + new_word.lower(), s["hi"] + 1000000)
+                except _CVE:
+                    pass
+                except Exception:
+                    pass
+                else:
+                    res.violation(f"{prop}:alias-out-of-range-accepted", f"{where}: after relabelling, u_{new_word.lower()} = {s['hi'] + 1000000} (range {s['lo']}..{s['hi']}) is accepted", case)
+        mm.user_defined[first].label = s.get("text", s["label"])
     # the module's own controllers stay what they are, whatever the labels look like
     try:
         v = rng.randint(0, 1024)
